@@ -1,5 +1,5 @@
 import TLVerif.Util.Hex
-import TLVerif.Jsonp.Reader
+import TLVerif.Jsonp.Float
 /-! Line-protocol handler for the `jsonp` family: every line is a self-contained case.
 Numbers travel as big-endian hex bit patterns so that neither side parses decimal text on the way in. -/
 namespace TLVerif.Jsonp
@@ -13,6 +13,9 @@ def bitsArg (nbytes : Nat) (h : String) : Option Nat :=
   match bytesOfHex h with
   | some bs => if bs.length = nbytes then some (beNat bs) else none
   | none => none
+
+/-- `n` big-endian bytes of `v` -/
+def beBytes (n : Nat) (v : Nat) : Bytes := (List.range n).map (fun i => byteOf (v / 256 ^ (n - 1 - i)))
 
 /-- two's complement -/
 def toSigned (bits : Nat) (v : Nat) : Int := if v < 2 ^ (bits - 1) then (v : Int) else (v : Int) - (2 ^ bits : Nat)
@@ -45,15 +48,27 @@ def handle (op : String) (args : List String) : String :=
     | some v => "ok " ++ hexOfBytes (formatInt (toSigned 64 v))
     | none => "bad-op"
   | "wf32", [h] => match bitsArg 4 h with
-    | some v => match writeFloatSpecial (floatClass 8 23 v) with
+    | some v => match writeFloat fmt32 v with
       | some t => "ok " ++ hexOfBytes t
-      | none => "fin"
+      | none => "nofmt"
     | none => "bad-op"
   | "wf64", [h] => match bitsArg 8 h with
-    | some v => match writeFloatSpecial (floatClass 11 52 v) with
+    | some v => match writeFloat fmt64 v with
       | some t => "ok " ++ hexOfBytes t
-      | none => "fin"
+      | none => "nofmt"
     | none => "bad-op"
+  | "rfn32", [h] => match bytesOfHex h with
+    | none => "bad-op"
+    | some d => match readFloat fmt32 d with
+      | some (.ok b p) => s!"ok {hexOfBytes (beBytes 4 b)} {p}"
+      | some _ => "err"
+      | none => "unmodelled"
+  | "rfn64", [h] => match bytesOfHex h with
+    | none => "bad-op"
+    | some d => match readFloat fmt64 d with
+      | some (.ok b p) => s!"ok {hexOfBytes (beBytes 8 b)} {p}"
+      | some _ => "err"
+      | none => "unmodelled"
   | "rs", [h] =>
     match bytesOfHex h with
     | none => "bad-op"
